@@ -61,7 +61,7 @@ Definition key_kind_ok (k : kind) : bool :=
 
 Definition nillable (k : kind) : bool := match k with KNonNil => false | _ => true end.
 
-Definition sel_ok (s : schema) (x : selk) : bool :=
+Definition selk_ok (s : schema) (x : selk) : bool :=
   match x with
   | SIgnore | SBad => true
   | SField i => Nat.ltb i (s_nf s) &&
@@ -86,5 +86,5 @@ Definition wf_schema (s : schema) : bool :=
   | _ => false
   end &&
   forallb nillable (s_kinds s) &&
-  match s_sel s with None => true | Some l => forallb (sel_ok s) l end &&
+  match s_sel s with None => true | Some l => forallb (selk_ok s) l end &&
   match s_elems s with None => true | Some l => Nat.eqb (length l) (s_nf s) && seq_is 0 l end.
